@@ -150,9 +150,20 @@ def finish(ctx, mod):
             continue
         os.makedirs(rdir, exist_ok=True)
         path = os.path.join(rdir, safe_name(bucket) + '.json')
+        info = {'shrunk': False, 'reason': 'shrink budget spent on earlier buckets'}
+        case = b['case']
+        if hasattr(mod, 'replay') and len(new) < 4 and os.environ.get('HXV_NO_SHRINK') != '1':
+            try:
+                from hx import shrink
+                # JSON round trip first: the shrunk case must be what a replay file can hold
+                case, info = shrink.shrink(mod, ctx.pid, bucket, json.loads(json.dumps(case, default=repr)),
+                                           budget=60 if ctx.tier == 'quick' else 250)
+            except Exception as e:      # shrinking is best effort; the unshrunk case is still a valid replay
+                info = {'shrunk': False, 'reason': 'shrinker error: ' + repr(e)}
+                case = b['case']
         with open(path, 'w') as f:
             json.dump({'property': ctx.pid, 'bucket': bucket, 'what': b['what'],
-                       'case': b['case'], 'seed': ctx.seed, 'tier': ctx.tier},
+                       'case': case, 'seed': ctx.seed, 'tier': ctx.tier, 'shrink': info},
                       f, indent=1, sort_keys=True, default=repr)
         new.append((bucket, path, b))
     # known findings that the check knows about but did not re-observe this
